@@ -166,6 +166,25 @@ func (cs *ContractSet) parseFile(pkgPath, file string, f *ast.File) {
 				cur.Terminates = true
 			case "trusted":
 				cur.Trusted = true
+			case "traverse":
+				parts := strings.SplitN(rest, " ", 4)
+				if len(parts) < 4 || (parts[0] != "remap" && parts[0] != "mark") {
+					errf("bad traverse clause: %s", ln)
+					continue
+				}
+				cur.Traverses = append(cur.Traverses, Traverse{Mode: parts[0], Param: parts[1], Handle: parts[2], Expr: parts[3]})
+			case "callback":
+				fs := strings.Fields(rest)
+				if len(fs) != 2 {
+					errf("bad callback clause: %s", ln)
+					continue
+				}
+				if cur.Callbacks == nil {
+					cur.Callbacks = map[string]string{}
+				}
+				cur.Callbacks[fs[0]] = fs[1]
+			case "except":
+				cur.Except = append(cur.Except, strings.Fields(rest)...)
 			case "inline":
 				cur.Inline = append(cur.Inline, strings.Fields(rest)...)
 			case "noinline":
